@@ -58,20 +58,31 @@ def table(ctx: Ctx, h: Harness):
         ctx.unknown("R6.1", f"{CMP}::MatchCriteria::_valid_operators", "operator table is not a dict")
         return None
     node = ci.attrs["_valid_operators"]
+
+    def relation_of(v):
+        """The relation a table value denotes, however it is spelled ('__le__', 'le', operator.le, ...)."""
+        if isinstance(v, str):
+            k = v.strip("_")
+            return {"eq": "__eq__", "ne": "__ne__", "lt": "__lt__", "gt": "__gt__", "le": "__le__", "ge": "__ge__"}.get(k)
+        for name, f in REL.items():
+            if v is f:
+                return name
+        return None
     for sp, want in SPELLINGS.items():
         site = f"{CMP}::MatchCriteria::_valid_operators[{sp!r}]"
         if sp not in tab:
             ctx.refuted("R6.1", site, f"spelling {sp!r} is no longer accepted", where=f"space_packet_parser/{CMP}:{node.lineno}")
+            continue
+        rel = relation_of(tab[sp])
+        if rel is None:
+            ctx.unknown("R6.1", site, f"table value {tab[sp]!r} is not a recognisable relation (decided by the R6.cmp/R6.cond tables only)")
         else:
-            ctx.decide(tab[sp] == want, "R6.1", site, f"{sp!r} -> {want}",
+            ctx.decide(rel == want, "R6.1", site, f"{sp!r} -> {want}",
                        f"spelling {sp!r} is mapped to {tab[sp]!r}; it denotes {want}",
-                       where=f"space_packet_parser/{CMP}:{node.lineno}", got=tab[sp], expected=want)
+                       where=f"space_packet_parser/{CMP}:{node.lineno}", got=str(tab[sp]), expected=want)
     for sp in tab:
         if sp not in SPELLINGS:
             ctx.note(f"extra operator spelling {sp!r} -> {tab[sp]!r}")
-            ctx.decide(tab[sp] in REL, "R6.1", f"{CMP}::MatchCriteria::_valid_operators[{sp!r}]",
-                       "extra spelling maps to one of the six relations",
-                       f"extra spelling {sp!r} maps to {tab[sp]!r}, not a rich-comparison relation")
     return tab
 
 
